@@ -214,7 +214,9 @@ func histVerdicts(ops []histOp) []string {
 			// sticky: an earlier analysis failure of this template
 			key := fmt.Sprintf("%d/%s", ns, execName(k))
 			sticky := "1"
-			if everFailed[key] && !(strings.HasPrefix(res, "escape:") && out == "") {
+			// "returns an error and writes nothing": the analysis error, or - after the name was redefined by
+			// t.New, which leaves an empty template - the incomplete / undefined template error
+			if everFailed[key] && !((strings.HasPrefix(res, "escape:") || res == "incomplete" || res == "undefined") && out == "") {
 				sticky = "0"
 			}
 			if strings.HasPrefix(res, "escape:") {
@@ -333,6 +335,32 @@ func genPropHistories(c *caseWriter, stream string, quick bool) {
 					emitH(append(append([]histOp{}, base...), histOp{kind: "Y", h: 0, name: a}, histOp{kind: "Y", h: 0, name: b}, histOp{kind: "Y", h: 0, name: a}))
 				}
 			}
+		}
+		// clone families: the original, two sibling clones and a clone of a clone; one member executed in one set,
+		// then another (and the same) member in another set, both orders
+		if len(names) >= 2 {
+			for _, a := range names {
+				for _, b := range names {
+					if a == b {
+						continue
+					}
+					fam := append(append([]histOp{}, base...), histOp{kind: "C", h: 0}, histOp{kind: "C", h: 0}, histOp{kind: "C", h: 1})
+					emitH(append(append([]histOp{}, fam...), histOp{kind: "Y", h: 0, name: a}, histOp{kind: "Y", h: 1, name: b}, histOp{kind: "Y", h: 1, name: a}, histOp{kind: "Y", h: 0, name: b}))
+					emitH(append(append([]histOp{}, fam...), histOp{kind: "Y", h: 1, name: a}, histOp{kind: "Y", h: 2, name: b}, histOp{kind: "Y", h: 3, name: b}, histOp{kind: "Y", h: 0, name: b}, histOp{kind: "Y", h: 3, name: a}))
+				}
+			}
+		}
+		// a handle obtained by Lookup, the set executed, the name redefined through t.New, then Parse through the
+		// OLD handle (it belongs to a set of its own now): the executed set must not see that definition
+		for i, a := range names {
+			if i >= 3 {
+				break
+			}
+			late := "{{define \"" + a + "\"}}<script>alert(1)</script>{{.A}}{{end}}late"
+			emitH(append(append([]histOp{}, base...), histOp{kind: "L", h: 0, name: a}, histOp{kind: "Y", h: 0, name: a}, histOp{kind: "S", h: 0, name: a},
+				histOp{kind: "P", h: 2, text: late}, histOp{kind: "Y", h: 0, name: a}, histOp{kind: "X", h: 0}, histOp{kind: "Y", h: 0, name: "main"}, histOp{kind: "X", h: 2}))
+			emitH(append(append([]histOp{}, base...), histOp{kind: "L", h: 0, name: a}, histOp{kind: "X", h: 0}, histOp{kind: "S", h: 2, name: a},
+				histOp{kind: "P", h: 2, text: late}, histOp{kind: "P", h: 4, text: late}, histOp{kind: "Y", h: 0, name: a}, histOp{kind: "X", h: 0}))
 		}
 		// clone, execute the clone, then the original, late parses on both
 		emitH(append(append([]histOp{}, base...), histOp{kind: "C", h: 0}, histOp{kind: "X", h: 1}, histOp{kind: "P", h: 1, text: "late"}, histOp{kind: "X", h: 0},
